@@ -9,9 +9,9 @@ func checkC20(c *Ctx, r *Report) {
 	r.Explanation = "R2 (who-may-write package-level state): every SSA store / map update / copy / delete whose address is rooted at a package-level variable " +
 		"(directly, through a pointer/slice/map header loaded from it, or through a parameter that receives such an address) must be in an init function or in the registry mutators " +
 		"mp4.SetBoxDecoder / mp4.RemoveBoxDecoder; no package-level variable of a sync/atomic type. Decides absence of hidden shared mutable state, a necessary condition of C20; " +
-		"does not decide races inside the standard library or schedules."
+		"R4: no library function calls a storage-sharing method ((*bytes.Buffer).Next/Bytes, (*bufio.Reader).Peek) on the io.Reader it was given, so decoded structures do not alias the caller's input; does not decide races inside the standard library or schedules."
 	r.Assume("call graph = VTA over CHA (x/tools v0.29.0); reflection and unsafe writes are not modelled (unsafe is used once, read-only, in avc/annexb.go)")
 	r.Assume("address escape through interface method calls into non-repository code is not followed")
 	ruleR2(c, r, map[string]bool{"mp4.SetBoxDecoder": true, "mp4.RemoveBoxDecoder": true})
-	ruleR4(c, r)
+	ruleNoReaderAliasing(c, r)
 }
